@@ -16,7 +16,7 @@ var MixWide = gen.Mix{"swapIn1": 14, "swapOut1": 8, "swap2hop": 5, "swapByDenom"
 
 func wideWorld(c *run.Ctx, probes bool) (*chain.World, *Variant) {
 	v := NewVariant(c)
-	w := chain.NewWorld(chain.Config{NUsers: 12, Probes: probes, Inflation: 1e14, VestBlocks: 50, EdenClaimed: 3_000_000_000, EnableVestNow: true, PriceExpiry: 86400, LifeTimeBlock: 100000})
+	w := chain.NewWorld(chain.Config{NUsers: 12, Probes: probes, Inflation: 1e14, VestBlocks: 50, EdenClaimed: 3_000_000_000, EnableVestNow: true, PriceExpiry: 86400, LifeTimeBlock: 100000, Airdrops: true})
 	c.Attach(w)
 	return w, v
 }
